@@ -221,7 +221,7 @@ const c15ServersDoc = `{"openapi":"3.0.3","info":{"title":"s","version":"1"},
                          "get":{"responses":{"200":{"description":"ok"}}},"post":{"responses":{"200":{"description":"ok"}}}},
          "/things":{"get":{"responses":{"200":{"description":"ok"}}}}}}`
 
-func c15NewWorld(idx int, servers bool) *c15World {
+func c15NewWorld(idx int, servers, legacyToo bool) *c15World {
 	d, err := openapi3.NewLoader().LoadFromData([]byte(c15Doc(idx)))
 	if err != nil {
 		panic("harness: c15 doc: " + err.Error())
@@ -233,8 +233,10 @@ func c15NewWorld(idx int, servers bool) *c15World {
 	if w.mux, err = gorillamux.NewRouter(d); err != nil {
 		panic(err)
 	}
-	if w.legacy, err = legacy.NewRouter(d); err != nil {
-		panic(err)
+	if legacyToo { // (the legacy router validates the document once more: only the cases that use it pay for it)
+		if w.legacy, err = legacy.NewRouter(d); err != nil {
+			panic(err)
+		}
 	}
 	if servers { // (only the cases that route through server templates pay for the second document)
 		if w.docS, err = openapi3.NewLoader().LoadFromData([]byte(c15ServersDoc)); err != nil {
@@ -756,17 +758,22 @@ func c15Run(c *Case) []any {
 	c.Decode(&raw)
 	line := map[string]any{"case": c.Idx, "c": raw}
 	goroutines, iters := 8, 100
-	// (thorough has ~20 times the cases of quick -- every pair of product operations, every flat triple -- at the same
-	// number of iterations per goroutine: measured 35 min at 200 iterations on a loaded machine, too long)
+	// thorough has ~20 times the cases of quick (every pair of product operations, every flat triple); its strength is in
+	// the operation pairs, so each goroutine iterates half as often (measured on a loaded machine: 35 min at 200
+	// iterations, 24 min at 100)
+	if c.Tier == "thorough" {
+		iters = 50
+	}
 	c15Configure(tc.Init)
 	defer c15Restore(tc.Init)
 	// alone: a world of its own (so that "first use" is still a first use in the concurrent run)
-	servers := false
+	servers, legacyToo := false, false
 	for _, op := range tc.Ops {
 		servers = servers || strings.HasSuffix(op.E, "_servers")
+		legacyToo = legacyToo || strings.Contains(op.E, "legacy")
 	}
-	alone := c15NewWorld(c.Idx*2+1, servers)
-	w := c15NewWorld(c.Idx*2, servers)
+	alone := c15NewWorld(c.Idx*2+1, servers, legacyToo)
+	w := c15NewWorld(c.Idx*2, servers, legacyToo)
 	line["before"] = c15Snapshot(alone, w)
 	type run struct {
 		Op    c15Op `json:"op"`
